@@ -523,3 +523,28 @@ def run_worker(pyfile, args, variant="o3", env=None, timeout=3600, input_=None):
         e.update(env)
     return subprocess.run([PY, pyfile] + list(args), capture_output=True, text=True, env=e, timeout=timeout,
                           input=input_)
+
+
+def asan_env():
+    """environment for running a worker on the asan variant.  symbolize=0: the in-process symbolizer can hang after a report inside a
+    ctypes call; frames are resolved afterwards with asan_where()."""
+    rt = os.popen("clang -print-file-name=libclang_rt.asan-x86_64.so").read().strip()
+    return {"LD_PRELOAD": rt, "ASAN_OPTIONS": "detect_leaks=0:symbolize=0"}
+
+
+def asan_where(stderr):
+    """first frame of a sanitizer report that lies in librebound, resolved to function and source line"""
+    import re as _re
+    head = _re.search(r"(ERROR: AddressSanitizer[^\n]*|[^\n]*runtime error[^\n]*)", stderr)
+    m = _re.search(r"#\d+ 0x[0-9a-f]+\s+\((/[^\s)]*librebound[^\s)+]*)\+(0x[0-9a-f]+)\)", stderr)
+    where = "?"
+    if m:
+        for tool in ("llvm-symbolizer", "llvm-symbolizer-14"):
+            try:
+                out = subprocess.run([tool, "--obj=" + m.group(1), m.group(2)], capture_output=True, text=True, timeout=60).stdout.split("\n")
+                if out and out[0]:
+                    where = "%s %s" % (out[0].strip(), out[1].strip() if len(out) > 1 else "")
+                    break
+            except Exception:
+                continue
+    return (head.group(1)[:160] if head else "sanitizer report"), where
